@@ -59,7 +59,19 @@ def run_group(args):
         tasks = [TYPES[tn](p=build(tree, types=TYPES)) for tn, tree in group]
         WORLD.reset(epoch=1)
         lab = labtech.Lab(storage=storage, runner_backend='serial', notebook=False)
-        res = lab.run_tasks(tasks, disable_progress=True, disable_top=True)
+        # every other group runs under a frozen clock: start at the epoch boundary, duration exactly zero
+        import labtech.runners.base as lt_base
+        from datetime import datetime as _dt
+        from ..savepath import FixedClock
+        frozen = (len(group) + len(repr(group[0]))) % 2 == 0
+        orig_dt = lt_base.datetime
+        if frozen:
+            lt_base.datetime = FixedClock
+            FixedClock.script = [_dt(1970, 1, 1, 0, 0, 0)] * (20 * len(tasks) + 20)
+        try:
+            res = lab.run_tasks(tasks, disable_progress=True, disable_top=True)
+        finally:
+            lt_base.datetime = orig_dt
         # expected cached set: every cacheable task anywhere in the group (by canonical form)
         # (ground truth for "was cached": the run() bodies recorded their own cache_key; tasks
         # that compare equal, e.g. Leaf(1) == Leaf(True), are executed only once per run)
